@@ -124,22 +124,41 @@ def gen_scenario(seed, opts):
         if tools == "real":
             mode = r.pick(["c", "link", "S"])
         nin = r.pick([1, 1, 1, 2, 2, 3, 3, 4, 5])
+        many = mode == "link" and tools == "stub" and r.below(25) == 0
+        many_profile = None
+        if many:
+            nin = r.pick([9, 12, 17, 24, 33, 40, 48])        # long command lines (any fixed-size table in the driver; 2 temporaries per .c, 1 per .s)
+            many_profile = r.pick([["o", "o", "s", "a"], ["s", "s", "s", "o"], ["c", "c", "c", "s"]])
+        # -x LANG: the language comes from the option, not from the file name (which may have any extension or none)
+        xlang = None
+        if tools == "stub" and not many and r.below(9) == 0:
+            xlang = "c" if mode in ("E", "M") or r.below(3) else "assembler"
+            if xlang == "assembler" and mode == "S":
+                xlang = "c"
         inputs = []
         for j in range(nin):
             ext = r.pick(["c", "c", "c", "c", "s", "o"])
+            if many and j > 1:
+                ext = r.pick(many_profile)
+            if mode == "link" and tools == "stub" and r.below(12) == 0:
+                ext = r.pick(["a", "so"])
             if mode in ("E", "M"):
                 ext = "c"
-            kind = r.pick({"c": C_KINDS, "s": S_KINDS, "o": O_KINDS}[ext])
-            if r.below(3) == 0 and kind in FAILING_KINDS:  # keep most inputs good so that later steps are reached
-                kind = {"c": "valid", "s": "asm", "o": "obj"}[ext]
+            if xlang:
+                ext = "c" if xlang == "c" else "s"
+            kind = r.pick({"c": C_KINDS, "s": S_KINDS, "o": O_KINDS, "a": O_KINDS, "so": O_KINDS}[ext])
+            if (r.below(3) == 0 or many) and kind in FAILING_KINDS:  # keep most inputs good so that later steps are reached
+                kind = {"c": "valid", "s": "asm", "o": "obj", "a": "obj", "so": "obj"}[ext]
             if tools != "stub" and kind in ("obj", "objbad"):
                 kind = "valid"
                 ext = "c"
             if tools == "real" and kind == "valid" and j > 0:
                 kind = "valid2"
-            sub = "d%d/" % r.below(2) if r.below(6) == 0 else ""
+            sub = r.pick(["d0/", "d1/", "v.1/", "d0/../d1/"]) if r.below(6) == 0 else ""
             stem_extra = r.pick(["", "", "", ".tab", ".x.y", ".c", ".o"])   # base names with more than one dot
-            name = "%si%d_%s%d%s.%s" % (sub, i, "abcde"[j], r.below(3), stem_extra, ext)
+            if xlang:
+                ext = r.pick(["txt", "", "C", "h", "o", ext, ext])   # the name says nothing (or something else) about the language
+            name = "%si%d_%s%d%s%s" % (sub, i, ("abcdefghijklmnopqrstuvwxyz"[j % 26] + ("" if j < 26 else "z")), r.below(3), stem_extra, "." + ext if ext else "")
             if not sub and r.below(8) == 0:
                 name = "./" + name
             # inputs are shared on purpose: the same file (or an equally named file in another directory)
@@ -148,12 +167,16 @@ def gen_scenario(seed, opts):
                 name, kind = r.pick(all_inputs)
                 if r.below(4) == 0 and "/" not in name:
                     name = "d%d/%s" % (r.below(2), name)
-                ext = name[-1]
-                if mode in ("E", "M") and ext != "c":
+                ext = name.rsplit(".", 1)[-1] if "." in os.path.basename(name) else ""
+                if xlang:
+                    if (xlang == "c") != (kind in C_KINDS) or kind in ("missing", "dir"):
+                        continue
+                elif ext not in ("c", "s", "o", "a", "so") or (mode in ("E", "M") and ext != "c"):
                     continue
             # within one command two inputs never share a stem: they would be told to produce the same default output
+            # (when nothing is derived from the name -- linking, -E / -M to one stream -- the same input may well be given twice)
             stem = os.path.basename(name).rsplit(".", 1)[0]
-            if any(stem == os.path.basename(n).rsplit(".", 1)[0] for n, _ in inputs):
+            if any(stem == os.path.basename(n).rsplit(".", 1)[0] for n, _ in inputs) and not (mode in ("link", "E", "M") and r.below(2)):
                 continue
             inputs.append((name, kind))
             all_inputs.append((name, kind))
@@ -203,13 +226,28 @@ def gen_scenario(seed, opts):
                 deco += [["-lm"], ["-Wl,-x,-y"], ["-L."], ["-L", "d1"], ["-s"], ["-Xlinker", "--foo"], ["-static"], ["-shared"]]
             for _ in range(r.range(1, 2)):
                 argv += r.pick(deco)
-        argv += [n for n, _ in inputs]
+        if xlang:
+            argv += r.pick([["-x", xlang], ["-x" + xlang]])     # in front of the inputs (positional and global readings agree)
+        names = [n for n, _ in inputs]
+        if mode == "link" and tools == "stub" and names and r.below(5) == 0:
+            # libraries and linker options keep their place among the objects; the stub linker hashes them where they stand
+            for _ in range(r.range(1, 3)):
+                tok = r.pick(["-lvsim%d" % r.below(3), "-Wl,--vsimw%d" % r.below(3), "-Wl,--vsimw%d,--vsimw%d" % (r.below(3), r.below(3)), "-Xlinker --vsimx%d" % r.below(3)])
+                pos = r.below(len(names) + 1)
+                names[pos:pos] = tok.split(" ")
+        argv += names
         if use_o:
             if r.below(2):
                 argv += ["-o", out]
             else:
-                argv.insert(r.below(len(argv) + 1), "-o" + out)
+                two = ("-D", "-U", "-I", "-idirafter", "-include", "-L", "-Xlinker", "-x", "-MF", "-MT", "-MQ", "-o")
+                pos = r.below(len(argv) + 1)
+                while pos > 0 and argv[pos - 1] in two:   # never between an option and its argument
+                    pos -= 1
+                argv.insert(pos, "-o" + out)
         for n, k in inputs:
+            if n.startswith("d0/../"):
+                files["d0/keep"] = "text"     # the directory the path walks through exists
             if k == "missing":
                 continue
             files[n] = k
@@ -219,6 +257,8 @@ def gen_scenario(seed, opts):
         elif r.below(25) == 0:
             so_kind = "closed"      # descriptor 1 is closed: the first file the process opens becomes "standard output"
         inv = {"argv": argv, "stdout": so_kind, "stderr": "devfull" if r.below(30) == 0 else "file", "faults": []}
+        if so_kind == "file" and r.below(25) == 0:
+            inv["stdin"] = "closed"  # descriptor 0 is free: the first open() of every process returns 0
         invs.append(inv)
     # concurrent invocations have disjoint requested outputs (two commands told to write the same file
     # interfere legitimately); everything else -- directory, /tmp, inputs -- is shared on purpose
@@ -326,6 +366,9 @@ def model(inv, files):
     inputs = []
     md = False
     mf = None
+    lang = None
+    items = []      # what the linker sees, in order: ("in", path) / ("tok", text); xtoks: -Xlinker arguments (placed by the driver)
+    xtoks = []
     i = 0
     while i < len(argv):
         a = argv[i]
@@ -333,7 +376,15 @@ def model(inv, files):
             out = argv[i + 1]
             i += 2
             continue
-        if a in ("-D", "-U", "-I", "-idirafter", "-include", "-L", "-Xlinker", "-x", "-MQ"):
+        if a == "-x":
+            lang = argv[i + 1]
+            i += 2
+            continue
+        if a == "-Xlinker":
+            xtoks.append(argv[i + 1])
+            i += 2
+            continue
+        if a in ("-D", "-U", "-I", "-idirafter", "-include", "-L", "-MQ"):
             i += 2
             continue
         if a in ("-MF", "-MT"):
@@ -349,6 +400,12 @@ def model(inv, files):
             pass
         elif a.startswith("-o"):
             out = a[2:]
+        elif a.startswith("-x"):
+            lang = a[2:]
+        elif a.startswith("-l"):
+            items.append(("tok", a))
+        elif a.startswith("-Wl,"):
+            items += [("tok", t) for t in a[4:].split(",") if t]
         elif a == "-E":
             mode = "E" if mode != "M" else mode
         elif a == "-S":
@@ -357,7 +414,10 @@ def model(inv, files):
             mode = "c" if mode not in ("E", "S", "M") else mode
         elif not a.startswith("-"):
             inputs.append(a)
+            items.append(("in", len(inputs) - 1))
         i += 1
+    if lang == "none":
+        lang = None
     def base(p, ext):
         b = os.path.basename(p)
         return (b[:b.rindex(".")] if "." in b else b) + ext
@@ -367,7 +427,11 @@ def model(inv, files):
     ntemps = 0
     if not refused:
         for p in inputs:
-            ext = p[p.rindex("."):] if "." in p else ""
+            ext = p[p.rindex("."):] if "." in os.path.basename(p) else ""
+            if ext in (".a", ".so"):
+                ext = ".o"          # archives and shared objects go to the linker as they are, like objects
+            if lang:
+                ext = {"c": ".c", "assembler": ".s"}[lang]
             tu = {"input": p, "ext": ext, "output": None, "cc1": None, "as": None}
             if ext == ".c":
                 ncc1 += 1
@@ -414,7 +478,8 @@ def model(inv, files):
                 requested.append(tu["output"])
         if mode == "link" and inputs:
             requested.append(out or "a.out")
-    return {"mode": mode, "out": out, "inputs": inputs, "refused": refused, "tus": tus, "steps": steps, "requested": requested, "ntemps": ntemps}
+    return {"mode": mode, "out": out, "inputs": inputs, "refused": refused, "tus": tus, "steps": steps, "requested": requested, "ntemps": ntemps,
+            "items": items, "xtoks": xtoks}
 
 
 # ====================================================================================== the simulated machine
@@ -808,7 +873,7 @@ class Machine:
                 e["VSIM_TAG"] = str(i)
                 self.pending_hello += 1
                 popen[i] = subprocess.Popen([self.env["cc"]] + inv["argv"], cwd=self.cwd, env=e, stdin=subprocess.DEVNULL, stdout=so, stderr=se,
-                                            start_new_session=True, preexec_fn=(close_stdout if inv["stdout"] == "closed" else None))
+                                            start_new_session=True, preexec_fn=pre_exec(inv))
             verdict = None
             while True:
                 self.quiesce()
@@ -869,6 +934,18 @@ def close_stdout():
     os.close(1)
 
 
+def close_stdin():
+    os.close(0)
+
+
+def pre_exec(inv):
+    if inv["stdout"] == "closed":
+        return close_stdout
+    if inv.get("stdin") == "closed":
+        return close_stdin
+    return None
+
+
 def snapshot(d):
     out = {}
     for root, dirs, fs in os.walk(d):
@@ -895,7 +972,7 @@ def reference_run(env, wdir, scn, i, cache):
     inv = scn["invocations"][i]
     m = model(inv, scn["files"])
     used = sorted((n, scn["files"].get(n)) for n in scn["files"])
-    key = json.dumps([scn["tools"], inv["argv"], inv["stdout"], used], sort_keys=True)
+    key = json.dumps([scn["tools"], inv["argv"], inv["stdout"], inv.get("stdin"), used], sort_keys=True)
     if key in cache:
         return cache[key]
     mach = Machine(env, wdir, {"files": scn["files"], "pre": {}, "tools": scn["tools"], "invocations": scn["invocations"]}, [i], {"kind": "serial"})
@@ -906,7 +983,7 @@ def reference_run(env, wdir, scn, i, cache):
     with so, open(os.path.join(wdir, "ref.stderr"), "wb") as se:
         try:
             rc = subprocess.run([env["cc"]] + inv["argv"], cwd=mach.cwd, env=e, stdin=subprocess.DEVNULL, stdout=so, stderr=se, timeout=60,
-                                preexec_fn=(close_stdout if inv["stdout"] == "closed" else None)).returncode
+                                preexec_fn=pre_exec(inv)).returncode
         except subprocess.TimeoutExpired:
             raise Inconclusive("reference run timed out")
     after = snapshot(mach.cwd)
@@ -939,8 +1016,21 @@ def stub_as_output(asm):
     return out.encode()
 
 
-def stub_ld_output(objs):
-    h, _, chunks = fnv_stub(objs)
+def stub_ld_output(seq, xtoks=()):
+    """seq: objects (bytes) and option tokens (str) in the order the linker must see them"""
+    h = 0xcbf29ce484222325
+    chunks = 0
+    for d in seq:
+        if isinstance(d, str):
+            d = d.encode() + b"\n"
+        else:
+            chunks += (len(d) + 4095) // 4096
+        for b in d:
+            h = ((h ^ b) * 0x100000001b3) & 0xFFFFFFFFFFFFFFFF
+    for t in xtoks:
+        if t.startswith("--vsimx"):
+            for b in t.encode() + b"\n":
+                h = ((h ^ b) * 0x100000001b3) & 0xFFFFFFFFFFFFFFFF
     return ("EXE %d %016x\n" % (chunks, h)).encode()
 
 
@@ -995,6 +1085,7 @@ def expected_contents(env, wdir, scn, inv, m, cache):
     objs = []
     exp = {}
     for tu in m["tus"]:
+        objs.append(None)
         p = tu["input"]
         kind = scn["files"].get(p)
         if tu["ext"] == ".c":
@@ -1021,9 +1112,17 @@ def expected_contents(env, wdir, scn, inv, m, cache):
             if tu["output"]:
                 exp[tu["output"]] = obj
         else:
-            objs.append(obj)
+            objs[-1] = obj
     if m["mode"] == "link" and m["inputs"]:
-        exp[m["out"] or "a.out"] = stub_ld_output(objs)
+        seq = []
+        for what, x in m["items"]:
+            if what == "in":
+                if objs[x] is None:
+                    return None
+                seq.append(objs[x])
+            elif x.startswith(("-lvsim", "--vsimw")):
+                seq.append(x)
+        exp[m["out"] or "a.out"] = stub_ld_output(seq, m["xtoks"])
     return dict((k, hashlib.sha1(v).hexdigest()[:16]) for k, v in exp.items())
 
 
@@ -1310,7 +1409,7 @@ def describe(scn):
     for n in sorted(scn["pre"]):
         out.append("  pre-existing %s" % n)
     for i, inv in enumerate(scn["invocations"]):
-        out.append("  inv%d: chibicc %s%s" % (i, " ".join(inv["argv"]), (" > /dev/full" if inv["stdout"] == "devfull" else " >&-" if inv["stdout"] == "closed" else "") + (" 2> /dev/full" if inv.get("stderr") == "devfull" else "")))
+        out.append("  inv%d: chibicc %s%s" % (i, " ".join(inv["argv"]), (" > /dev/full" if inv["stdout"] == "devfull" else " >&-" if inv["stdout"] == "closed" else "") + (" <&-" if inv.get("stdin") == "closed" else "") + (" 2> /dev/full" if inv.get("stderr") == "devfull" else "")))
         for f in inv["faults"]:
             out.append("        fault: %s" % json.dumps(f, sort_keys=True))
     s = scn.get("sched", {})
